@@ -251,7 +251,8 @@ func (w *World) config() bluge.Config {
 	}
 	switch w.O.Merges {
 	case "off":
-		ic.MergePlanOptions = mergeplan.Options{MaxSegmentsPerTier: 100000, MaxSegmentSize: 5000000, TierGrowth: 10, SegmentsPerMergeTask: 10, FloorSegmentSize: 2000, ReclaimDeletesWeight: 2}
+		ic.MergePlanOptions = mergeplan.Options{MaxSegmentsPerTier: 100000, MaxSegmentSize: 5000000, TierGrowth: 10, SegmentsPerMergeTask: 10, FloorSegmentSize: 2000, ReclaimDeletesWeight: 2,
+			CalcBudget: func(int64, int64, *mergeplan.Options) int { return 1 << 30 }} // never over budget: no file merges
 		ic.MinSegmentsForInMemoryMerge = 1 << 30
 	case "small":
 		ic.MergePlanOptions = mergeplan.Options{MaxSegmentsPerTier: 2, MaxSegmentSize: 5000000, TierGrowth: 2, SegmentsPerMergeTask: 3, FloorSegmentSize: 2, ReclaimDeletesWeight: 2}
